@@ -6,6 +6,7 @@ use super::impls::*;
 use ldpc_toolbox::decoder::arithmetic::*;
 use crate::common::*;
 use crate::engine::*;
+use crate::ensure;
 use proptest::prelude::*;
 use serde::{Deserialize, Serialize};
 
@@ -101,10 +102,14 @@ fn strong_history(matrix: BoxedStrategy<Mat>, max_calls: usize) -> BoxedStrategy
 }
 
 fn strategy_on(matrix: BoxedStrategy<Mat>, max_calls: usize) -> BoxedStrategy<Case> {
+    strategy_between(matrix, 1, max_calls)
+}
+
+fn strategy_between(matrix: BoxedStrategy<Mat>, min_calls: usize, max_calls: usize) -> BoxedStrategy<Case> {
     matrix
         .prop_flat_map(move |h| {
             let call = (llr_vector(&h), limit_strategy(), 0..100u8);
-            (Just(h), proptest::collection::vec(call, 1..=max_calls))
+            (Just(h), proptest::collection::vec(call, min_calls..=max_calls))
         })
         .prop_map(|(h, raw)| {
             let mut calls: Vec<Call> = Vec::new();
@@ -127,6 +132,47 @@ fn strategy_on(matrix: BoxedStrategy<Mat>, max_calls: usize) -> BoxedStrategy<Ca
             Case { h, calls }
         })
         .boxed()
+}
+
+/// how many calls lie between two noisy frames: one decoder object per name decodes a noisy frame
+/// (iterating), then N frames that need no iteration (exact codewords; every third with limit 0), then
+/// another noisy frame that fails the initial parity check; for N around 2^8, 2 * 2^8 - 2 and 2^16 the
+/// last result must be that of a fresh decoder (a counter of 8 or 16 bits of calls or frames has
+/// come round by then)
+fn gap_cases(_t: Tier) -> Vec<usize> {
+    (0..36).collect()
+}
+
+fn check_gap(which: &usize, p: &mut Probe) -> Check {
+    let imp = &factory_variants()[*which];
+    let name = imp.to_string();
+    // 4 x 8, row weight 4, column weight 2
+    let mut h = Mat::new(4, 8);
+    for (i, row) in [[0usize, 1, 2, 3], [2, 3, 4, 5], [4, 5, 6, 7], [0, 1, 6, 7]].iter().enumerate() {
+        for &j in row {
+            h.ones.push((i, j));
+        }
+    }
+    let hs = h.to_sparse();
+    let clean = [5.0, 4.0, 6.5, 3.5, 4.5, 5.5, 6.0, 4.25];
+    let noisy_a = [5.0, -1.0, 6.5, 3.5, 4.5, 5.5, -0.5, 4.25];
+    let noisy_b = [-0.75, 4.0, 6.5, -1.25, 4.5, 0.5, 6.0, 4.25];
+    let mut fresh = build_factory(imp, hs.clone());
+    let want = fresh.decode(&noisy_b, 2);
+    for &gap in &[253usize, 254, 255, 256, 257, 509, 510, 511, 65_533, 65_534, 65_535, 65_536] {
+        let mut d = build_factory(imp, hs.clone());
+        let first = guarded(|| d.decode(&noisy_a, 6)).map_err(|e| Fail::new("panic", format!("{name}: panicked on the first frame: {e}")))?;
+        let _ = first;
+        for i in 0..gap {
+            let r = guarded(|| d.decode(&clean, if i % 3 == 2 { 0 } else { 4 })).map_err(|e| Fail::new("panic", format!("{name}: call {} on one decoder object panicked: {e}", i + 2)))?;
+            ensure!(r.as_ref().is_ok_and(|o| o.iterations == 0), "stale", "{name}: call {} on one decoder object: an exact codeword is not returned with 0 iterations: {r:?}", i + 2);
+        }
+        let got = guarded(|| d.decode(&noisy_b, 2)).map_err(|e| Fail::new("panic", format!("{name}: call {} on one decoder object panicked: {e}", gap + 2)))?;
+        p.inner += gap as u64 + 2;
+        ensure!(got == want, "stale-after-a-gap", "{name}: a noisy frame, {gap} frames that need no iteration, then another noisy frame (limit 2): the long-lived decoder returns {got:?}, a fresh decoder returns {want:?}");
+    }
+    p.nontrivial();
+    Ok(())
 }
 
 fn check(case: &Case, p: &mut Probe) -> Check {
@@ -333,6 +379,21 @@ pub fn property() -> Property {
                 strategy: |_| strategy(8, 14, 20),
                 check,
                 health: &[("limit0-after-iterating", 0.25), ("failure-before-success", 0.25)],
+            }),
+            Box::new(EnumSub {
+                name: "gap-between-noisy-frames",
+                rule: "each of the 36 names on a 4 x 8 matrix: a noisy frame (iterating), then N exact codewords (0 iterations each; every third under limit 0), then another noisy frame under limit 2, for N = 253..=257, 509..=511 and 65 533..=65 536: the last result equals that of a fresh decoder (counters of 8 or 16 bits of calls have come round)",
+                cases: gap_cases,
+                check: check_gap,
+                exhaustive: false,
+            }),
+            Box::new(Sub {
+                name: "fresh-vs-reused-long-history",
+                rule: "same oracle, H up to 6 x 12, histories of 40..=90 calls (a worker of a simulation keeps its decoder for thousands of frames)",
+                cases: |t| t.pick(300, 10_000),
+                strategy: |_| strategy_between(decoder_matrix(6, 12).boxed(), 40, 90),
+                check,
+                health: &[],
             }),
             Box::new(Sub {
                 name: "fresh-vs-reused-large",
